@@ -160,7 +160,7 @@ class Ctx:
 
     # -------------------------------------------------------------------- TLC
     def tlc(self, module, cfg, name=None, workers=1, timeout=900, simulate=None, depth=None, coverage=False,
-            deadlock=False, extra=None, dfs=False, tolerate_violation=False):
+            deadlock=False, extra=None, dfs=False, tolerate_violation=False, heap=None):
         """Runs TLC on spec/<module>.tla with configuration text or file name cfg."""
         name = name or module
         if "\n" in cfg or cfg.strip().startswith("SPECIFICATION") or cfg.strip().startswith("INIT"):
@@ -172,6 +172,8 @@ class Ctx:
         meta = tempfile.mkdtemp(prefix="meta-", dir=self.work)
         out = os.path.join(self.work, "%s_%d.out" % (name, len(self.tlc_runs)))
         jopts = "-Xss512m -Djava.io.tmpdir=%s" % self.jtmp
+        if heap:          # (the JVM's default maximum is a quarter of the machine's memory: too much for 16 parallel validations)
+            jopts += " -Xmx" + heap
         if dfs:
             jopts += " -Dtlc2.tool.queue.IStateQueue=StateDeque"
         env = dict(os.environ)
@@ -313,7 +315,7 @@ class Ctx:
         def run(i):
             cfg = "SPECIFICATION %s\nCONSTANT TraceFile = \"%s\"\n%s%sCHECK_DEADLOCK FALSE\n" % (
                 spec_name, files[i], constants, inv)
-            return self.tlc(module, cfg, name="%s_val%d" % (module, i), workers=1, timeout=timeout, dfs=dfs)
+            return self.tlc(module, cfg, name="%s_val%d" % (module, i), workers=1, timeout=timeout, dfs=dfs, heap="3g")
 
         accepted = set()
         with ThreadPoolExecutor(max_workers=min(shards, NCPU)) as ex:
